@@ -92,6 +92,12 @@ def _arith(ctx, f, e, env):
     ok, v = ctx.fold.try_eval(e, f.mod, {})
     if ok and isinstance(v, int) and not isinstance(v, bool):
         return (v, v)
+    if isinstance(e, ast.Attribute) and isinstance(e.value, ast.Name) and f.cls is not None and f.params and e.value.id in (f.params[0], f.cls.name) and e.attr in f.cls.class_assigns:
+        # a class-level constant (`_MAX_LOCAL_ID = 2**32 - 1`) that no method assigns
+        if not any(k == m.params[0] + "." + e.attr for m in f.cls.methods.values() if m.params for k, _st, _kind in attr_writes(m)):
+            ok, v = ctx.fold.try_eval(f.cls.class_assigns[e.attr], f.mod, {})
+            if ok and isinstance(v, int) and not isinstance(v, bool):
+                return (v, v)
     if isinstance(e, ast.BinOp):
         a = _arith(ctx, f, e.left, env)
         b = _arith(ctx, f, e.right, env)
